@@ -40,8 +40,8 @@ func runC15(cfg *vh.Config) error {
 	distinct := vh.Distinct{}
 
 	type c15case struct {
-		id   int
-		c    *descgen.Case
+		id       int
+		c        *descgen.Case
 		term     string
 		req      *Request
 		collides bool
@@ -52,6 +52,12 @@ func runC15(cfg *vh.Config) error {
 		prof := descgen.Profile{MaxFiles: 3, Supported: true, Comments: r.Chance(40), CrossPkg: len(cases)%3 == 1, OddPkg: len(cases)%13 == 4}
 		if len(cases)%8 == 7 {
 			prof.Supported, prof.Wild = false, 5
+		}
+		switch len(cases) {
+		case 2, 10, 18, 26:
+			// crafted split-name collisions (variants 1..4): either the reflection fails (nothing to
+			// round-trip) or the type-confused schemas must still survive the round trip
+			prof.Collide = 1 + len(cases)/8
 		}
 		c := descgen.Generate(r.Fork(fmt.Sprintf("c15-%d-%d", len(cases), invalid)), prof, deps)
 		if len(cases)%8 == 5 {
@@ -154,6 +160,9 @@ func runC15(cfg *vh.Config) error {
 	evals := 0
 	for _, c := range cases {
 		input := map[string]any{"files": c.c.GenPaths(), "packages": c.req.Packages, "seed": cfg.Seed, "case": c.id, "generated_files_base64": genOnlyB64(c.c)}
+		if c.collides {
+			res.Count("case-with-split-name-collision")
+		}
 		ce, ci := 7, 7
 		first, second := "[]", "[]"
 		for _, o := range obs[c.id] {
@@ -165,9 +174,6 @@ func runC15(cfg *vh.Config) error {
 					in[k] = v
 				}
 				in["step"] = o.Step
-				if c.collides && reConfusion.MatchString(sig+" "+got) {
-					sig = "C15 two descriptors with the same split name (package, names joined by _) -> type confusion in the reader"
-				}
 				res.Fail(vh.Failure{Case: c.id, Stream: o.Step, Sig: sig, Clause: clause, Input: in, Got: got})
 			}
 			bad := o.Class == "panic" || o.Class == "fatal" || o.Class == "timeout"
